@@ -183,6 +183,8 @@ class Interp:
             x.add(a, Segment(200.0 + op["k"], 203.0 + op["k"]), u.annotation)
         else:
             names = list(x.annotators) or ["new_annotator"]
+            if "unitless" in names and op["k"] % 2 == 0:
+                names = ["unitless"]
             x.add(names[op["k"] % len(names)], Segment(-50.0 - op["k"], -48.0 - op["k"]), NEW_LABEL)
 
     def _call(self, op, c, d, i, allowed):
@@ -254,7 +256,15 @@ class Interp:
                 out.append(c.copy_flush())
             elif e == "merge":
                 # every third time the other operand is a continuum without any annotator (nothing to merge in)
-                o = pa.Continuum() if k % 3 == 0 else self.inputs[k % len(self.inputs)]
+                if k % 3 == 0:
+                    o = pa.Continuum()
+                elif k % 3 == 1:
+                    # an operand with an annotator that has no unit (held as a derived object: it must stay as it is)
+                    o = self.inputs[k % len(self.inputs)].copy()
+                    o.add_annotator("unitless")
+                    out.append(o)
+                else:
+                    o = self.inputs[k % len(self.inputs)]
                 out.append(c.merge(o, in_place=False))
                 out.append(c + o)
             elif e == "getitem":
